@@ -122,7 +122,9 @@ def m_len(interp, args, kwargs):
     if isinstance(x, SList):
         return wrap(x.length)
     if isinstance(x, SMap):
-        raise Unsupported('len of symbolic map')
+        return smap_len(interp, x)
+    if isinstance(x, SMapProxy):
+        return smap_len(interp, x.m)
     from .pdict import PDict
     if isinstance(x, PDict):
         return x.length(interp)
@@ -1173,6 +1175,8 @@ class SMap:
         self.has = has
         self.val = val
         self.uid = uid
+        # how a key term is presented as an object where the map hands out its keys (`items()`); None: the scalar
+        self.key_object = None
 
     # ----- sorts / conversion
     @property
@@ -1216,6 +1220,8 @@ class SMap:
     def _unwrap(self, interp, v):
         if self.val is None:
             return None
+        if _is_opt_shape(self.vty):
+            return _opt_term(interp, self.vty, v)
         if isinstance(v, (SOpt, SChoice)):
             v = interp.resolve(v)
         t = term_of_value(v)
@@ -1226,6 +1232,9 @@ class SMap:
     def _wrap(self, interp, t):
         if self.val is None:
             return self._fresh_value(interp)
+        if _is_opt_shape(self.vty):
+            srt = scalar_sort(self.vty)
+            return SOpt(z3.simplify(srt.none(t)), value_of_term(interp, self.vty.inner, z3.simplify(srt.v(t))))
         return value_of_term(interp, self.vty, t)
 
     def _touch(self, interp, kt):
@@ -1235,7 +1244,9 @@ class SMap:
 
     # ----- operations
     def copy(self, interp):
-        return SMap(self.kty, self.vty, self.has, self.val, interp.st.fresh_name(self.uid + '.copy'))
+        c = SMap(self.kty, self.vty, self.has, self.val, interp.st.fresh_name(self.uid + '.copy'))
+        c.key_object = self.key_object
+        return c
 
     def contains(self, interp, k):
         k = self._key_value(interp, k)
@@ -1381,8 +1392,52 @@ def is_object_shape(ty):
     return isinstance(ty, Iface)
 
 
+_OPT_SORTS = {}
+
+
+def _is_opt_shape(ty):
+    from .api import Opt
+    return isinstance(ty, Opt)
+
+
+def opt_sort(inner):
+    """the sort of optional values of a symbolic map: records (none: Bool, v: inner); canonical: v is the default
+    of the inner sort when none holds"""
+    key = inner.sexpr()
+    if key not in _OPT_SORTS:
+        dt = z3.Datatype('Opt<%s>' % key)
+        dt.declare('mk', ('none', z3.BoolSort()), ('v', inner))
+        _OPT_SORTS[key] = dt.create()
+    return _OPT_SORTS[key]
+
+
+def _opt_term(interp, ty, v):
+    """the record term of an optional value (None, SOpt, or a plain value of the inner shape)"""
+    srt = scalar_sort(ty)
+    dflt = default_term(ty.inner)
+    if isinstance(v, SChoice):
+        v = interp.resolve(v)
+    if v is None:
+        return srt.mk(z3.BoolVal(True), dflt)
+    if isinstance(v, SOpt):
+        inner = v.val
+        if isinstance(inner, (SOpt, SChoice)):
+            inner = interp.resolve(inner)
+        t = term_of_value(inner)
+        if t is None or t.sort() != dflt.sort():
+            raise Unsupported('symbolic map: cannot store value %r' % (v,))
+        isn = v.is_none if z3.is_expr(v.is_none) else z3.BoolVal(bool(v.is_none))
+        return srt.mk(isn, z3.If(isn, dflt, t))
+    t = term_of_value(v)
+    if t is None or t.sort() != dflt.sort():
+        raise Unsupported('symbolic map: cannot store value %r' % (v,))
+    return srt.mk(z3.BoolVal(False), t)
+
+
 def scalar_sort(ty):
     from .api import _Int, _Bool, _Str, Iface
+    if _is_opt_shape(ty):
+        return opt_sort(scalar_sort(ty.inner))
     if isinstance(ty, _Int):
         return z3.IntSort()
     if isinstance(ty, _Bool):
@@ -1397,6 +1452,8 @@ def scalar_sort(ty):
 
 
 def default_term(ty):
+    if _is_opt_shape(ty):
+        return scalar_sort(ty).mk(z3.BoolVal(True), default_term(ty.inner))
     s = scalar_sort(ty)
     if s == z3.IntSort():
         return z3.IntVal(0)
@@ -1456,6 +1513,8 @@ def smap_method(interp, m, name, args, kwargs):
         return m.delitem(interp, args[0])
     if name == 'keys':
         return SMapKeys(m)
+    if name == 'items' and not args:
+        return SMapItems(m)
     raise Unsupported('method %s on symbolic map' % name)
 
 
@@ -1481,7 +1540,7 @@ def m_mappingproxy(interp, args, kwargs):
         raise _pyraise(e)
 
 
-_PROXY_READS = ('get', 'copy', '__contains__', '__getitem__', 'keys')
+_PROXY_READS = ('get', 'copy', '__contains__', '__getitem__', 'keys', 'items')
 
 
 class SMapKeys:
@@ -1489,6 +1548,75 @@ class SMapKeys:
 
     def __init__(self, m):
         self.m = m
+
+
+class SMapItems:
+    """`d.items()` of a symbolic map: only the source of a key- and value-preserving dict comprehension"""
+
+    def __init__(self, m):
+        self.m = m
+
+
+def _card_fn(ksort):
+    return z3.Function('smap.card<%s>' % ksort.sexpr(), z3.ArraySort(ksort, z3.BoolSort()), z3.IntSort())
+
+
+def smap_len(interp, m):
+    """len(d): the cardinality of the key set, an uninterpreted function `card` of the `has` array with the facts of
+    finite cardinality instantiated at the arrays the map went through (stores on top of a base array):
+    card >= 0;  card == 0  <=>  no key;  a store adds / removes at most the stored key."""
+    card = _card_fn(m.ksort)
+    st = interp.st
+    empty = z3.K(m.ksort, z3.BoolVal(False))
+    h = m.has
+    for _ in range(64):
+        c = card(h)
+        st.assume(c >= 0)
+        st.assume((c == 0) == (h == empty))
+        if z3.is_store(h):
+            base, k, b = h.arg(0), h.arg(1), h.arg(2)
+            was = z3.Select(base, k)
+            if z3.is_true(b):
+                st.assume(c == card(base) + z3.If(was, 0, 1))
+            elif z3.is_false(b):
+                st.assume(c == card(base) - z3.If(was, 1, 0))
+            else:
+                st.assume(c == card(base) + z3.If(b, z3.If(was, 0, 1), z3.If(was, -1, 0)))
+            h = base
+        else:
+            break
+    return wrap(card(m.has))
+
+
+def smap_dictcomp(interp, node, frame, items):
+    """{key(k, v): value(k, v) for k, v in d.items()} over a symbolic map, where key(k, v) is (equal as a key to) k
+    and value(k, v) is v: a copy of the map.  Anything else is Unsupported."""
+    from .interp import Frame, _comp_info
+    m = items.m
+    if m.val is None:
+        raise Unsupported('dict comprehension over a symbolic map whose values are not tracked')
+    g = node.generators[0]
+    st = interp.st
+    k = z3.Const(st.fresh_name('k!comp'), m.ksort)
+    key_obj = m.key_object(interp, k) if m.key_object is not None else wrap(k)
+    val_obj = m._wrap(interp, z3.Select(m.val, k))
+    child = Frame(_comp_info(frame.info, node.generators), {}, frame.enclosing + [frame.locals], frame.first_arg,
+                  frame.defcls)
+    child.gen = frame.gen
+    n_dec = len(st.decisions)
+    interp.assign(g.target, (key_obj, val_obj), child)
+    kk = interp.eval(node.key, child)
+    vv = interp.eval(node.value, child)
+    if len(st.decisions) != n_dec:
+        raise Unsupported('dict comprehension over a symbolic map: case split on the arbitrary item')
+    kt = SMap._key_value(interp, kk)
+    try:
+        kt = to_z3(kt)
+    except TypeError:
+        raise Unsupported('dict comprehension over a symbolic map: key %r' % (kk,))
+    if not (kt.sort() == m.ksort and z3.simplify(kt).eq(k)) or vv is not val_obj:
+        raise Unsupported('dict comprehension over a symbolic map that does not preserve keys and values')
+    return m.copy(interp)
 
 
 def havoc_mutable(interp, v, tag, depth=3):
@@ -2017,12 +2145,41 @@ def _count_reduce_site(interp):
     return None, 0
 
 
+def lazy_map_image(interp, lm):
+    """the items of map(f, xs) over a symbolic sequence as the element-wise image -- only when f, probed on an arbitrary
+    element, neither raises nor splits cases nor emits ghost events (else Unsupported)"""
+    from . import seqs
+    from .interp import PyRaise
+    xs = seqs.as_slist(interp, lm.xs)
+    st = interp.st
+    uid = st.fresh_name(xs.uid + '.map')
+
+    def elem(interp2, idx_term):
+        return interp2.call(lm.f, [slist_elem(interp2, xs, idx_term)], {})
+
+    k = st.fresh_int(uid + '.k')
+    n_dec, n_tr = len(st.decisions), len(st.trace)
+    with st.scope(z3.And(k >= 0, k < xs.length)):
+        if not st.infeasible_site():
+            n_dec = len(st.decisions)
+            try:
+                elem(interp, k)
+            except PyRaise:
+                raise Unsupported('items of map(f, xs): f may raise')
+    if len(st.decisions) != n_dec or len(st.trace) != n_tr:
+        raise Unsupported('items of map(f, xs): f splits cases or has ghost effects (%r, %r)'
+                          % (st.decisions[n_dec:], st.trace[n_tr:]))
+    return SList(xs.length, elem, uid)
+
+
 def m_items_of(interp, args, kwargs):
     """spec helper items_of(it): the remaining items of an iterator / the items of a sequence"""
     from . import seqs
     x = args[0]
     if isinstance(x, (SOpt, SChoice)):
         x = interp.resolve(x)
+    if isinstance(x, SLazyMap):
+        return lazy_map_image(interp, x)
     if isinstance(x, (SList, SIter, SEnumerate)):
         if isinstance(x, SIter):
             if isinstance(x.pos, int) and x.pos == 0:
